@@ -207,8 +207,10 @@ func genC06(seed int64, tier string) []caseOut {
 			c -= 0x10000
 			return fmt.Sprintf(`\u%04x\u%04X`, 0xD800+(c>>10), 0xDC00+(c&0x3FF))
 		}
-		lit := `{"k":"a` + string(cp) + `z","` + string(cp) + `":1}`
-		text := `{"k":"a` + esc(cp) + `z","` + esc(cp) + `":1}`
+		// (next to a name from U+E000-U+FFFF: in UTF-16 code units the supplementary-plane name sorts
+		// before it, by code point behind it)
+		lit := `{"k":"a` + string(cp) + `z","` + string(cp) + `":1,"\ufb33":2,"` + string(cp) + `\ue000":3}`
+		text := `{"k":"a` + esc(cp) + `z","` + esc(cp) + `":1,"\ufb33":2,"` + esc(cp) + `\ue000":3}`
 		h, herr := hashing.CalculateModelMultihash([]byte(text), code)
 		var checks []string
 		if herr == nil {
@@ -219,8 +221,9 @@ func genC06(seed int64, tier string) []caseOut {
 			for _, v := range []struct {
 				vtext  string
 				expect bool
-			}{{lit, true}, {text, true}, {`{"` + string(cp) + `":1,"k":"a` + string(cp) + `z"}`, true},
-				{`{"k":"a` + string(other) + `z","` + string(other) + `":1}`, false}, {`{"k":"a` + esc(other) + `z","` + esc(other) + `":1}`, false}} {
+			}{{lit, true}, {text, true}, {`{"` + string(cp) + `\ue000":3,"\ufb33":2,"` + string(cp) + `":1,"k":"a` + string(cp) + `z"}`, true},
+				{`{"k":"a` + string(other) + `z","` + string(other) + `":1,"\ufb33":2,"` + string(other) + `\ue000":3}`, false},
+				{`{"k":"a` + esc(other) + `z","` + esc(other) + `":1,"\ufb33":2,"` + esc(other) + `\ue000":3}`, false}} {
 				err := hashing.IsValidModelMultihash([]byte(v.vtext), h)
 				c, cerr := hashing.GetMultihashCode(h)
 				cs := "None"
@@ -543,6 +546,10 @@ func genC04(seed int64, tier string) []caseOut {
 		}
 		kinds := []string{keyKinds[r.Intn(len(keyKinds))]}
 		d := &didState{r: r, cfg: base, code: code, kinds: kinds}
+		if i%4 == 2 { // keys whose coordinates are written with the spare bits of base64url set: the JWK as spelled is what is hashed
+			d.kinds = []string{[]string{"P-256", "secp256k1", "Ed25519"}[(i/4)%3]}
+			d.spare = true
+		}
 		p := operationparser.New(base)
 		if i%2 == 1 { // request-time validators that refuse everything: GetRevealValue / GetCommitment read anchored operations
 			p = operationparser.New(base, operationparser.WithAnchorTimeValidator(refuseTime{}), operationparser.WithAnchorOriginValidator(refuseOrigin{}))
